@@ -11,7 +11,7 @@ from .. import kf
 ID = "C01"
 NEEDS_MODEL = True
 LEVEL = "exploration"
-N = {"quick": 3200, "thorough": 100000}
+N = {"quick": 4800, "thorough": 100000}
 STRATA = [None, None, None, "union3", "take3", "rank0", "reduce0", "contracted-outer",
           "broadcast", "sumprod"]
 
